@@ -20,7 +20,7 @@ from ..gen import c11_gen as GEN
 
 PID = "C11"
 COQ_HEADER = ("From Coq Require Import List NArith ZArith.\nImport ListNotations.\n"
-              "From SK Require Import lib.Tok lib.LGraph model.C11_Model model.C11_State model.C11_Partial model.C11_Keys model.C11_Attr model.C11_Orbit model.C11_Order model.C11_SigObs model.C11_Views model.C11_AttrFull model.C11_State2 model.C11_Attr3.\nLocal Open Scope N_scope.\n")
+              "From SK Require Import lib.Tok lib.LGraph model.C11_Model model.C11_State model.C11_Partial model.C11_Keys model.C11_Attr model.C11_Orbit model.C11_Order model.C11_SigObs model.C11_Views model.C11_AttrFull model.C11_State2 model.C11_Attr3 model.C03_Model model.C11_Image model.C11_Agree.\nLocal Open Scope N_scope.\n")
 SHARD = 100
 IMPL_TIMEOUT = 300      # the stage takes 7 s on 16 idle cores (40 CPU-s); a lost pool worker ends it after this bound, not later
 COQ_TIMEOUT = 300       # per shard of 100 cases (8 CPU-s at most since the cases are dealt round-robin)
@@ -41,7 +41,7 @@ EXPLANATION = ("Exhaustive sub-space (both tiers): every labelled graph up to is
                "Everything else is seeded random / "
                "corpus sampling.  Theorems (coq/props/C11.v, all closed under the global context): C11_vocabulary, C11_aut_count, C11_aut_group, "
                "C11_vf2_contract, C11_vf2_contract_items, C11_orbits_exact, C11_orbits_partition, C11_components, C11_anchors, C11_object_state, C11_wl_never_splits, C11_wl_partition, C11_wfb_sound, "
-               "C11_dedup_sublist, C11_dedup_first_of_class, C11_dedup_idempotent, C11_partial_prune, C11_partial_prune_hosts, C11_prune_complete, C11_rep_ok, C11_prune_complete_aut, C11_prune_first_of_class, C11_prune_same_results, C11_configured_labels_only, C11_key_options, C11_rule_labels, C11_orbit_accuracy, C11_aut_observable, C11_wl_never_splits_reported, C11_orbit_accuracy_all, C11_orbit_order, C11_views, C11_dedup_singletons_sound, C11_dedup_orbit_sets_merge_unrelated, C11_orbits_no_swaps, C11_count_no_swaps, C11_repr_numeral, C11_reported_order_canonical, C11_prune_attr, C11_wl_sweeps, C11_aut_observable_attr, C11_dedup_subset_safe, C11_est_index_state, C11_three_views, C11_prune_same_images, C11_lone_atoms_fixed.")
+               "C11_dedup_sublist, C11_dedup_first_of_class, C11_dedup_idempotent, C11_partial_prune, C11_partial_prune_hosts, C11_prune_complete, C11_rep_ok, C11_prune_complete_aut, C11_prune_first_of_class, C11_prune_same_results, C11_configured_labels_only, C11_key_options, C11_rule_labels, C11_orbit_accuracy, C11_aut_observable, C11_wl_never_splits_reported, C11_orbit_accuracy_all, C11_orbit_order, C11_views, C11_dedup_singletons_sound, C11_dedup_orbit_sets_merge_unrelated, C11_orbits_no_swaps, C11_count_no_swaps, C11_repr_numeral, C11_reported_order_canonical, C11_prune_attr, C11_wl_sweeps, C11_aut_observable_attr, C11_dedup_subset_safe, C11_est_index_state, C11_three_views, C11_prune_same_images, C11_lone_atoms_fixed, C11_prune_same_glue, C11_rule_auts_agree, C11_dedup_any_same_glue.")
 TRUSTED_BASE = [
     "Coq 8.16.1 kernel + vm_compute (no native_compute)",
     "hand-written model coq/model/C11_Model.v tied to synkit/Graph/Matcher/{automorphism,auto_est,dedup_matches}.py and the pruning call of "
@@ -86,10 +86,11 @@ LEVEL_TEXT = ("Machine-checked proof (Coq, all inputs) over an executable model 
               "the remaining views and the signatures of deduplicate_matches_with_anchor are in the model; the function drops only duplicates when "
               "every free orbit is a singleton, and merges unrelated matches otherwise (witness).  The model is tied to the code by a per-run correspondence on exhaustive small scopes, random graphs, "
               "symmetric families, engine-produced match lists and reactor applications.")
-LEVEL_NOTE = ("Trusted: Coq kernel + vm_compute; the model and encoders; VF2 = a duplicate-free listing of the automorphisms (monitored).  That the "
-              "glued result is a function of the labelled image of the rule centre (equivalently: invariant under rule automorphisms) is a PREMISE of "
-              "C11_prune_same_images / C11_prune_same_results that no theorem discharges - no gluing model is instantiated for it; it is judged end to "
-              "end by the oracle on every rule application (also with partial=True).")
+LEVEL_NOTE = ("Trusted: Coq kernel + vm_compute; the model and encoders; VF2 = a duplicate-free listing of the automorphisms (monitored).  Clause 4 no "
+              "longer rests on a premise about gluing: C11_prune_same_glue (round 6) proves, for C03's gluing model and C11's own pruning step, that the "
+              "set of glued ITS graphs is the same with and without the pruning (imports C05's glue_aut / glue_obs); its hypotheses are computations "
+              "evaluated by the correspondences: agreeb (C11's and C03's encodings of the rule centre agree - every rule application with at most 10 "
+              "rule-centre atoms in C03's domain), rc_ok / match_ok (C05).  ITS graph -> reaction string is RDKit (oracle, end to end).")
 
 N_CFG = 8
 WL_ATTRS4 = ["element", "charge", "aromatic", "hcount"]
@@ -595,6 +596,7 @@ def _reactor(case, mode, rule=None):
         res = dict(raw=[[[p, h] for p, h in m.items()] for m in raw], kept=_indices(raw, maps), n_aut=rec.get("n_aut", 0),
                    rc=GG.from_nx(r.rule.rc.raw))
         res["auts"] = rec.get("auts", [])
+        res["rc_its"] = _rc_its(r.rule.rc.raw)
         res["reread"] = (list(again) == list(maps))
         if mode != "front":
             its = r.its_list
@@ -645,11 +647,28 @@ def _images_ok(r):
     return all(image(m) in kept for m in raw)
 
 
+AGREE_MAX_NODES = 10       # agreeb is quartic in the number of atoms of the rule centre
+
+
+def _rc_its(G):
+    """C03's typed encoding (lgraph inode iedge) of the same rule-centre object, or None outside C03's domain / above the size
+    bound: the second representation for C11_Agree.agreeb (the bridge of C11_prune_same_glue)"""
+    try:
+        from ..gen import c03_common as K3
+        if G.number_of_nodes() > AGREE_MAX_NODES or not K3.in_domain_tpl(G):
+            return None
+        return K3.c_its(G)
+    except Exception:
+        return None
+
+
 def _impl_prune(case, rule=None):
     r = _reactor(case, "front", rule=rule)
     auts = r.get("auts", [])
     sym = S([S([[u, v] for u, v in a.items()]) for a in auts]) if len(auts) <= 60 else S([])     # the symmetries themselves
     obs = [[r["raw"], r["kept"], r["n_aut"]], True, True, (not _prune_representatives(r)) and r["reread"], sym]
+    if r.get("rc_its") is not None:
+        obs = [obs, [True]]               # the two encodings of the rule centre agree (C11_Agree.agreeb; expected true)
     return [obs, _images_ok(r)] if _image_cost(r) <= IMAGE_BUDGET else obs
 
 
@@ -1050,7 +1069,13 @@ def _coq_case(case):
                 return None
         # the attribute dictionaries of rule.rc.raw as they are: which attributes count (all but atom_map; every edge
         # attribute) is decided in the model (C11_Attr.to_rule_graph)
-        return "%s %s %s" % ("run_prune_attr_img" if _image_cost(r) <= IMAGE_BUDGET else "run_prune_attr", _coq_agraph(rc)[0], _coq_maps(r["raw"]))
+        ag = _coq_agraph(rc)[0]
+        inner = "run_prune_attr %s %s" % (ag, _coq_maps(r["raw"]))
+        if r.get("rc_its") is not None:
+            inner = "L [%s; L [tbool (agreeb (to_rule_graph [K_atom_map] %s) %s)]]" % (inner, ag, r["rc_its"])
+        if _image_cost(r) <= IMAGE_BUDGET:
+            return "L [%s; tbool (images_ok (to_rule_graph [K_atom_map] %s) %s)]" % (inner, ag, _coq_maps(r["raw"]))
+        return inner
     raise AssertionError(k)
 
 
@@ -1453,6 +1478,17 @@ def _dedup_results(obs):
     return list(obs[0][0][0]) + list(obs[0][1:]) + list(obs[2:2 + 3]) + [obs[1]]
 
 
+def _prune_core(obs):
+    """(the 5-element observable of a rule application, images flag or None, agreement flag or None): the optional layers are
+    [X, bool] (images_ok) around [X, [bool]] (agreeb)"""
+    img = agr = None
+    if isinstance(obs, list) and len(obs) == 2 and isinstance(obs[1], bool):
+        obs, img = obs[0], obs[1]
+    if isinstance(obs, list) and len(obs) == 2 and isinstance(obs[1], list) and len(obs[1]) == 1 and isinstance(obs[1][0], bool):
+        obs, agr = obs[0], obs[1][0]
+    return obs, img, agr
+
+
 def nontrivial(case, obs):
     k = case["kind"]
     if k == "hist":
@@ -1465,8 +1501,8 @@ def nontrivial(case, obs):
         return obs[0][0] > 1 or any(len(o) >= 2 for o in obs[2][1])
     if k == "dedup":
         return any(r[0] == 0 and len(r[1]) < len(case["ms"]) for r in _dedup_results(obs)[:-1])
-    if k == "prune" and isinstance(obs[0][0], list) and len(obs) == 2 and isinstance(obs[1], bool):
-        obs = obs[0]                      # [5-element observable, images flag]
+    if k == "prune":
+        obs = _prune_core(obs)[0]
     obs = obs[0]
     if k == "aut":
         return len(case["g"]["nodes"]) >= 2 and (obs[0] > 1 or any(len(o) >= 2 for o in obs[4][1]))
@@ -1517,10 +1553,11 @@ def distribution(cases, obss):
                 elif len(r[1]) < len(c["ms"]):
                     bump(d["dedup_dropped"], "cfg%d" % ci)
         elif c["kind"] == "prune":
-            if len(full) == 2 and isinstance(full[1], bool):
-                bump(d.setdefault("prune_same_labelled_images", {}), full[1])
-                full = full[0]
-                o = full[0]
+            full, img, agr = _prune_core(full)
+            o = full[0]
+            if img is not None:
+                bump(d.setdefault("prune_same_labelled_images", {}), img)
+            bump(d.setdefault("prune_rule_centre_encodings_agree", {}), "n/a" if agr is None else agr)
             bump(d["prune_every_raw_match_represented"], bool(full[3]) if len(full) > 3 else "n/a")
             bump(d["prune_raw"], bucket(len(o[0])))
             bump(d["prune_rule_aut"], bucket(o[2]))
